@@ -15,22 +15,17 @@ Definition rep_alphabet : list token_type :=
    TT_EmptyApply; TT_RightInternal; TT_SuffixIdentifier;
    TT_And; TT_JumpIfTrue; TT_ElseJump; TT_Apply; TT_ApplyTo].
 
-Definition both_ok (toks : list token_type) : bool := pipe_ok toks && (known_c04_k1 toks || c04_ok toks).
+Definition both_ok (toks : list token_type) : bool := pipe_ok toks && c04_ok toks.
 
 Lemma both_ok_rep_4 : forallb both_ok (seqs_exact rep_alphabet 4) = true.
 Proof. vm_compute. reflexivity. Qed.
 
 Theorem pipeline_bounded_4_rep (toks : list token_type) :
   length toks = 4 -> (forall t, In t toks -> In t rep_alphabet) ->
-  pipe_ok toks = true /\ (known_c04_k1 toks = false -> c04_ok toks = true).
+  pipe_ok toks = true /\ c04_ok toks = true.
 Proof.
   intros Hl Hin. pose proof both_ok_rep_4 as F. rewrite forallb_forall in F.
   specialize (F toks). rewrite <- Hl in F.
   assert (B : both_ok toks = true) by (apply F; apply seqs_exact_complete, Hin).
-  unfold both_ok in B. apply andb_true_iff in B. destruct B as [B1 B2]. split; [exact B1|].
-  intros K. rewrite K in B2. exact B2.
+  unfold both_ok in B. apply andb_true_iff in B. exact B.
 Qed.
-
-(* the exclusion is necessary: the class contains a failing input *)
-Lemma c04_k1_refuted : exists toks, known_c04_k1 toks = true /\ c04_ok toks = false.
-Proof. exists [TT_StartSideEffect; TT_EndSideEffect; TT_Opposite; TT_Number]. vm_compute. split; reflexivity. Qed.
